@@ -86,6 +86,20 @@ def _r10_r11(ctx):
                 ctx.saw(b)
                 good = a[0] == "payload" and norm(a[2])[0] == "call" and str(norm(a[2])[1]).endswith("NetAddrExt>::ip") and \
                     any(y[0] == "field" and y[2] == "addr" for y in subterms(a))
+                if not good and a[0] == "param" and b.kind == "closure":
+                    # `attr.addr.ip().is_some_and(|sockaddr| prefix.contains(sockaddr))`: the closure's argument is the payload of
+                    # the Option the adaptor is called on
+                    par = P.bodies.get(b.id.rsplit("::{closure", 1)[0])
+                    if par is not None:
+                        Tp = terms(P, par)
+                        for pb, ptm in par.calls():
+                            if (callee_name(ptm) or "").rsplit("::", 1)[-1] not in ("is_some_and", "is_none_or", "map", "map_or", "and_then", "filter") or \
+                                    "Option" not in (callee_name(ptm) or ""):
+                                continue
+                            pa = [norm(x) for x in Tp.call_args(pb)]
+                            if len(pa) >= 2 and any(y[0] == "agg" and str(y[1]) == "closure:" + b.id for x in pa[1:] for y in subterms(x)):
+                                r = pa[0]
+                                good = r[0] == "call" and str(r[1]).endswith("NetAddrExt>::ip") and any(y[0] == "field" and y[2] == "addr" for y in subterms(r))
                 ctx.check(good, "R10", "rule-tested-against-the-peer-address-as-reported", ctx.where(b, tm["sp"]),
                           "the prefixes of a rule must be tested against attr.addr.ip() itself (is %s): converting the address first "
                           "(to_canonical, to_ipv4, ...) changes which family's containment is used — an IPv4-mapped peer then no longer "
